@@ -361,19 +361,17 @@ func c12CheckOpenAPI3(res *Result, in map[string]any, a *xApp, out []byte, mode 
 			for _, e := range s.Enum {
 				got = append(got, fmt.Sprint(e))
 			}
-			want := append([]string{}, t.Enum...)
-			sort.Slice(want, func(i, j int) bool {
-				ni, nj := 0, 0
-				for k, e := range t.Enum {
-					if e == want[i] {
-						ni = t.Nums[k]
-					}
-					if e == want[j] {
-						nj = t.Nums[k]
-					}
-				}
-				return ni < nj
-			})
+			// what Export.exportEnum says the schema lists (every declared value once, by ascending number)
+			var items []any
+			for k, e := range t.Enum {
+				items = append(items, []any{t.Nums[k], e})
+			}
+			var want []string
+			if rep, err := RunOracle([]any{map[string]any{"op": "export.enum", "items": items}}); err == nil && len(rep) == 1 {
+				want = mstrs(rep[0], "values")
+			} else {
+				viol("oracle-failed", "export.enum")
+			}
 			if strings.Join(got, ",") != strings.Join(want, ",") {
 				viol("enum-values-differ", fmt.Sprintf("enum %s: schema lists %v, declared %v (in number order)", t.Name, got, want))
 			}
@@ -397,6 +395,18 @@ func c12CheckOpenAPI3(res *Result, in map[string]any, a *xApp, out []byte, mode 
 		gotReq := append([]string{}, s.Required...)
 		sort.Strings(gotReq)
 		sort.Strings(wantReq)
+		// Export.exportTuple's `required` (the sorted names of the non-optional fields) is what is expected
+		var fl []any
+		for _, f := range t.Fields {
+			fl = append(fl, []any{f.Name, f.Opt})
+		}
+		if rep, err := RunOracle([]any{map[string]any{"op": "export.required", "fields": fl}}); err == nil && len(rep) == 1 {
+			if m := mstrs(rep[0], "required"); strings.Join(m, ",") != strings.Join(wantReq, ",") {
+				viol("model-census-mismatch", fmt.Sprintf("type %s: the model requires %v, the census %v", t.Name, m, wantReq))
+			}
+		} else {
+			viol("oracle-failed", "export.required")
+		}
 		if strings.Join(gotReq, ",") != strings.Join(wantReq, ",") {
 			viol("required-differs", fmt.Sprintf("type %s: required %v, the non-optional fields are %v", t.Name, gotReq, wantReq))
 		}
